@@ -365,7 +365,7 @@ def execute(prop, tier, bins, plans_by_via, expect, verdict, drift, label, par, 
         traces += ts
         for w in plans_by_via[v]:
             plans[(v, w["id"])] = w
-        for k in ("walks", "steps", "noverdict", "slow", "panics", "skipped", "leaked"):
+        for k in ("walks", "steps", "noverdict", "slow", "panics", "skipped", "leaked", "aborted"):
             stats[k] += summ.get(k, 0)
         stats["max_parked"] = max(stats["max_parked"], summ.get("max_parked", 0))
         stats["observer"]["serve" if v else "direct"] = summ.get("observer", "?")
@@ -420,7 +420,7 @@ def execute(prop, tier, bins, plans_by_via, expect, verdict, drift, label, par, 
 
 
 def new_stats():
-    return {"walks": 0, "steps": 0, "noverdict": 0, "slow": 0, "panics": 0, "skipped": 0, "leaked": 0, "max_parked": 0, "events": 0,
+    return {"walks": 0, "steps": 0, "noverdict": 0, "aborted": 0, "slow": 0, "panics": 0, "skipped": 0, "leaked": 0, "max_parked": 0, "events": 0,
             "tv_wall": 0.0, "traces": 0, "compared": 0, "shapes": set(), "releases": 0, "classes": {}, "observer": {},
             "reexecuted_timing_walks": 0, "unconfirmed_timing_rejections": 0}
 
@@ -511,8 +511,8 @@ def run(prop, tier):
         log("SPEC-DRIFT (strict conformance only; C20_Step accepts the step): %s" % json.dumps(d)[:700])
     rc = verdict.finish()
     if rc == 0:
-        if stats["noverdict"]:
-            raise NoVerdict("%d walks gave no observation (%s)" % (stats["noverdict"], stats.get("nvtext")))
+        if stats["noverdict"] or stats["aborted"]:
+            raise NoVerdict("%d walks gave no observation, %d were not started (%s)" % (stats["noverdict"], stats["aborted"], stats.get("nvtext")))
         if left:
             raise NoVerdict("%d exported transitions were not planned" % left)
         if stats["walks"] == 0 or stats["releases"] == 0:
